@@ -154,3 +154,16 @@ Proof.
   unfold slave_load, slave_save. simpl. unfold str_items. rewrite str_items_map, dedup_nodup by exact P.
   destruct a; try contradiction; destruct w; try contradiction; destruct r; try contradiction; reflexivity.
 Qed.
+
+(* what GET /devices shows survives too (it is a function of the entry), and never shows a pending password in clear text *)
+Theorem slave_doc_roundtrip : forall s, wf_slave s -> option_map slave_doc (slave_load (slave_save s)) = Some (slave_doc s).
+Proof. intros s H. rewrite (slave_roundtrip s H). reflexivity. Qed.
+
+Theorem exposed_hides_passwords : forall l n v,
+  In (n, v) (map expose l) -> ends_with "_password" n = true -> v = JStr "set" \/ v = JStr "".
+Proof.
+  intros l n v H E. apply in_map_iff in H. destruct H as [[k w] [X _]]. unfold expose in X. simpl in X.
+  destruct (ends_with "_password" k) eqn:K.
+  - injection X as <- <-. destruct (truthy w); auto.
+  - injection X as <- <-. congruence.
+Qed.
